@@ -16,6 +16,7 @@ class Ctx:
         self.stats = {}
         self.rules = set()
         self.t0 = time.time()
+        self.floor_failures = []
         self.clause = ""
         self.assumptions = []
         self.trusted = ["rustc nightly HIR/MIR for crate turdb (lib target, default features, cfg(test) off)",
@@ -33,7 +34,8 @@ class Ctx:
         if count < minimum and os.environ.get("VERIF_SOFT"):
             print("  SOFT floor not met: %s = %d < %d" % (name, count, minimum))
         elif count < minimum:
-            raise CheckError("floor not met: %s = %d < %d (rule would pass vacuously)" % (name, count, minimum))
+            # deferred: a real violation found by another rule instance takes precedence over "cannot evaluate"
+            self.floor_failures.append("floor not met: %s = %d < %d (rule would pass vacuously)" % (name, count, minimum))
 
     def stat(self, name, v):
         self.stats[name] = v
@@ -133,4 +135,8 @@ def finish(ctx, seed=0):
     if unlisted:
         print("VIOLATION property=%s replay=%s" % (ctx.pid, replay))
         return 1
+    if ctx.floor_failures:
+        for ff in ctx.floor_failures:
+            print("CHECK-ERROR property=%s: %s" % (ctx.pid, ff))
+        return 2
     return 0
